@@ -132,9 +132,12 @@ fn make_edit<D: Doc>(
   let mut new_content = vec![];
   let mut start = 0;
   for edit in edits {
-    let pos = edit.position - offset;
+    // a rewriter fix with expandStart/expandEnd can reach outside the rewritten text: skip it
+    let Some(pos) = edit.position.checked_sub(offset) else {
+      continue;
+    };
     // skip overlapping edits
-    if start > pos {
+    if start > pos || pos > old_content.len() || edit.deleted_length > old_content.len() - pos {
       continue;
     }
     new_content.extend_from_slice(&old_content[start..pos]);
